@@ -12,6 +12,9 @@ func runExtract(repo, outDir, factsFile string) {
 	writePathGrammar(repo, outDir)
 	writePipeline(repo, outDir, facts)
 	writeCliFacts(repo, outDir, facts)
+	writeInventories(repo, outDir, facts)
+	kw, bi, deny := engineTables()
+	writeIdentTables(repo, outDir, facts, kw, bi, deny)
 	b, _ := json.MarshalIndent(facts, "", " ")
 	os.WriteFile(factsFile, b, 0644)
 }
